@@ -84,7 +84,7 @@ example : (runDiscoverFinally [.other, .cancelLoc, .awaitOther, .closeTransport,
     (runDiscoverFinally [.other, .cancelLoc, .awaitOther, .closeTransport, .other, .other] false).closed = true := by decide
 
 /-- non-vacuity: the table covers discovery, the handshake and steady state, and contains both endpoint-creation windows -/
-example : (crashPoints.map (·.proc)).eraseDups = ["discover", "_connect", "pump-idle", "pump-connected"] ∧
+example : (∀ p ∈ ["discover", "_connect", "pump-idle", "pump-connected"], p ∈ crashPoints.map (·.proc)) ∧
     (crashPoints.filter (·.endpoint == .pending)).length = 2 ∧ crashPoints.length ≥ 20 := by decide
 
 end GeckoModel.C10
